@@ -52,6 +52,21 @@ func (x *Exec) finish() error {
 		}
 		ctx.vars[od.Name] = v
 	}
+	// ghost assignments at exit (the function under verification establishes these facts)
+	newGhost := map[string]*Val{}
+	for _, sd := range x.fc.Sets {
+		if _, ok := x.C.Ghosts[sd.Name]; !ok {
+			return fmt.Errorf("sets %s: not a declared ghost variable", sd.Name)
+		}
+		v, err := x.specEval(ctx, sd.E)
+		if err != nil {
+			return fmt.Errorf("sets %s: %v", sd.Name, err)
+		}
+		newGhost[sd.Name] = v
+	}
+	for k, v := range newGhost {
+		exit.ghost[k] = v
+	}
 	for _, e := range x.fc.Ensures {
 		t, err := x.specBool(ctx, e.E)
 		if err != nil {
